@@ -13,6 +13,21 @@ CHECKS = {
              "only; the ordering function itself is not evaluated.",
         design_ref="DESIGN.md §5 C03", note=STATIC_NOTE,
         technique="static analysis: CFG control-dependence + dominance rules, call-graph exception-handler audit"),
+    "C12": dict(
+        text="Static: subroutiniser dispatch and version-default table are exhaustive over their enums; every unsupported combination "
+             "reaches NotImplementedError (guard formulas checked by propositional entailment, form-independent); specialise/subroutinise "
+             "thresholds agree with the IntEnum order; interpolatable masters are forced to NONE on every path; the four options reach "
+             "their consumers by name. Does not decide that the drawn outlines are equal across combinations.",
+        design_ref="DESIGN.md §5 C12", note=STATIC_NOTE,
+        technique="static analysis: enum/dispatch-table exhaustiveness, guard facts from control dependence, dominance, signature agreement"),
+    "C16": dict(
+        text="Static, exhaustive over all 141 getAttrWithFallback call sites (names folded by constant propagation with call-site "
+             "specialisation): fallback lookup is total and terminates (acyclic dependency graph); the PostScript sanitiser's tests "
+             "provably apply to the appended character (propositional entailment over the guards, stable reaching definitions); every CFF "
+             "string sink is fed through the reducer (4 listed known findings); the VF info override forwards every info-derived field; "
+             "every UFO3 fontinfo attribute is consumed or reviewed-unused. Field values are not decided.",
+        design_ref="DESIGN.md §5 C16", note=STATIC_NOTE,
+        technique="static analysis: constant propagation, fallback call-graph cycle check, value-flow sanitiser rule, taint of info-derived fields"),
 }
 
 _TODO = "check not built yet in this session (static rules designed in DESIGN.md §5; will be claimed when the rule set is armed)"
